@@ -35,7 +35,7 @@ def run_prophyc(args):
         return prophyc.main(list(args))
 
 
-def compile_python(text, workdir, name='sch', extra_args=(), files=None, fmt='prophy', patch=None):
+def compile_python(text, workdir, name='sch', extra_args=(), files=None, fmt='prophy', patch=None, files_are_inputs=False):
     """Write schema text, run prophyc --python_out into a fresh package, import it.
     files: optional {relative path: text} of additional schema files (includes).
     Returns (module, model_nodes)."""
@@ -56,6 +56,8 @@ def compile_python(text, workdir, name='sch', extra_args=(), files=None, fmt='pr
             os.makedirs(os.path.dirname(p))
         with open(p, 'w') as f:
             f.write(t)
+        if files_are_inputs:
+            inputs.insert(0, p)
     with open(os.path.join(pkgdir, '__init__.py'), 'w') as f:
         f.write('')
     args = ['--quiet', '--python_out', pkgdir] + list(extra_args)
